@@ -772,6 +772,7 @@ class WiringWorld(BaseWorld):
         U, S = self.units, self.streams
         in_count = {}
         out_count = {}
+        placeholders = []
         for uname in sorted(U):
             u = U[uname]
             for side, seq, n_fixed in (('ins', u._ins, u._N_ins), ('outs', u._outs, u._N_outs)):
@@ -785,6 +786,7 @@ class WiringWorld(BaseWorld):
                         if s:
                             self.fail('placeholder', f'placeholder at {uname}.{side}[{i}] is truthy',
                                       {'event': ev})
+                        placeholders.append((s, uname, side, i))
                         continue
                     if not isinstance(s, nw.AbstractStream):
                         self.fail('port-type', f'{uname}.{side}[{i}] holds {type(s).__name__}',
@@ -797,6 +799,24 @@ class WiringWorld(BaseWorld):
                                   f'{self._name_of(s)} is listed in {uname}.{side}[{i}] but its '
                                   f'{"sink" if side == "ins" else "source"} is '
                                   f'{self._uname(owner)}', {'event': ev, 'state': self.describe()})
+        # placeholders that sit in a port list may be shared between an outlet and an inlet list (unit - unit
+        # pipes); what they say about their own source / sink must agree with the lists that hold them
+        where = {}
+        for p_, uname, side, i in placeholders:
+            where.setdefault(id(p_), {'obj': p_, 'ins': [], 'outs': []})[side].append(uname)
+        for rec in where.values():
+            p_ = rec['obj']
+            snk, src = getattr(p_, '_sink', None), getattr(p_, '_source', None)
+            if snk is not None and self._uname(snk) in U and self._uname(snk) not in rec['ins']:
+                self.fail('placeholder-docked-but-not-listed',
+                          f'a placeholder listed at {rec["ins"] or "no inlet list"} / {rec["outs"] or "no outlet list"} '
+                          f'reports sink {self._uname(snk)}, whose inlets do not hold it',
+                          {'event': ev, 'state': self.describe()})
+            if src is not None and self._uname(src) in U and self._uname(src) not in rec['outs']:
+                self.fail('placeholder-docked-but-not-listed',
+                          f'a placeholder listed at {rec["ins"] or "no inlet list"} / {rec["outs"] or "no outlet list"} '
+                          f'reports source {self._uname(src)}, whose outlets do not hold it',
+                          {'event': ev, 'state': self.describe()})
         for sname in sorted(S):
             s = S[sname]
             if in_count.get(id(s), 0) > 1 or out_count.get(id(s), 0) > 1:
@@ -869,6 +889,11 @@ class OrderWorld(BaseWorld):
         if self.spec is None:
             return {'op': 'graph', 'spec': self._gen_graph(rngs.universe)}
         n = len(self.spec['units'])
+        if not self.cfg.get('persistent') and getattr(self, 'built', 0) and rngs.sched.random() < 0.12:
+            # the next flowsheet of the same process: another graph, acyclic after a cyclic one and vice versa
+            # (what an earlier network left behind in class-level state must not reach this one)
+            return {'op': 'graph', 'spec': self._gen_graph(rngs.args, back_edges=0 if self.cyclic else
+                                                           max(1, self.cfg['back_edges']))}
         if self.cfg.get('persistent') and self.objs is not None and rngs.sched.random() < 0.45:
             r = rngs.args
             if r.random() < 0.7:
@@ -883,8 +908,9 @@ class OrderWorld(BaseWorld):
         rngs.sched.shuffle(perm)
         return {'op': 'network', 'perm': perm, 'hash_seed': rngs.fault.getrandbits(32)}
 
-    def _gen_graph(self, r):
+    def _gen_graph(self, r, back_edges=None):
         n = self.cfg['n_units']
+        n_back = self.cfg['back_edges'] if back_edges is None else back_edges
         for _attempt in range(200):
             units = [{'n_ins': r.randint(1, 3), 'n_outs': r.randint(1, 3)} for _ in range(n)]
             edges = []  # (src_unit, src_port, dst_unit, dst_port)
@@ -908,7 +934,7 @@ class OrderWorld(BaseWorld):
                 continue
             # back edges: a free outlet of a later-or-equal unit to a free inlet of an earlier unit
             back = []
-            for _ in range(self.cfg['back_edges']):
+            for _ in range(n_back):
                 cand_out = [(u, p) for (u, p) in free_out]
                 cand_in = [(u, p) for u in range(n) for p in range(used_in[u], units[u]['n_ins'])]
                 r.shuffle(cand_out)
@@ -992,8 +1018,10 @@ class OrderWorld(BaseWorld):
     # ---------------------------------------------------------------- apply
     def apply(self, ev):
         if ev['op'] == 'graph':
-            if self.spec is not None:
+            if self.spec is not None and (self.cfg.get('persistent') or not getattr(self, 'built', 0)):
                 return 'skip:pre'
+            if self.spec is not None:
+                self.stats['fault:next_flowsheet_in_same_process'] += 1
             self.spec = ev['spec']
             self._analyse()
             self.stats['op:graph'] += 1
@@ -1010,6 +1038,7 @@ class OrderWorld(BaseWorld):
             return 'skip:pre'
         self.stats['op:network'] += 1
         self.stats['mechanism_ops'] += 1
+        self.built = getattr(self, 'built', 0) + 1
         if self.cfg.get('persistent'):
             if self.objs is None:
                 self.objs = self._build(ev['hash_seed'])
